@@ -1,2 +1,10 @@
 #!/bin/sh
-exit 0
+# MANIFEST.setup_cmd: offline build of the simulator from /repo's current working tree.
+set -e
+cd "$(dirname "$0")"
+export CARGO_NET_OFFLINE=true
+python3 tools/gen_shadow.py
+[ -f sim/simbin/Cargo.lock ] || cp "${REPO_DIR:-/repo}/Cargo.lock" sim/simbin/Cargo.lock
+cd sim/simbin
+cargo build --offline 2>&1 | tail -3
+test -x /verif/target/debug/sim
